@@ -124,6 +124,31 @@ def run_benign(b: B, props: list[str], baseline: dict[str, int]) -> dict:
         shutil.rmtree(tmp, ignore_errors=True)
 
 
+def benign_patches() -> list[tuple[str, str]]:
+    """(id, patch path) of the behaviour-preserving refactors produced by independent sub-agents (seeded/benign/*)."""
+    root = VERIF / "seeded" / "benign"
+    if not root.is_dir():
+        return []
+    return [(d.name, str(d / "patch.diff")) for d in sorted(root.iterdir()) if (d / "patch.diff").exists()]
+
+
+def run_benign_patch(bid: str, patch: str, props: list[str], baseline: dict[str, int]) -> dict:
+    tmp = tempfile.mkdtemp(prefix="fm_selftest_")
+    try:
+        _copy_tree(tmp)
+        r = subprocess.run(["patch", "-p1", "-s", "-f", "-d", tmp, "-i", patch], capture_output=True, text=True)
+        if r.returncode != 0:
+            return {"id": "refactor:" + bid, "status": "skipped", "why": "patch does not apply to the current tree"}
+        bad = {}
+        for prop in props:
+            rc, out = _run_check(prop, tmp)
+            if rc != baseline.get(prop, 0):
+                bad[prop] = {"rc": rc, "tail": out.splitlines()[-6:]}
+        return {"id": "refactor:" + bid, "status": "silent" if not bad else "ALARM", "checks": bad}
+    finally:
+        shutil.rmtree(tmp, ignore_errors=True)
+
+
 def selftest(props: list[str] | None = None, jobs: int = 16) -> dict:
     sel = props or ALL_PROPS
     tmp = tempfile.mkdtemp(prefix="fm_selftest_base_")
@@ -138,6 +163,7 @@ def selftest(props: list[str] | None = None, jobs: int = 16) -> dict:
         seeds = [x for x in seeded_variants() if not props or x[1] in props]
         mres += list(ex.map(lambda x: run_seeded(*x), seeds))
         bres = list(ex.map(lambda b: run_benign(b, sel, baseline), BENIGN))
+        bres += list(ex.map(lambda x: run_benign_patch(x[0], x[1], sel, baseline), benign_patches()))
     return {
         "baseline_rc": baseline,
         "mutants": {"run": sum(1 for r in mres if r["status"] != "skipped"), "detected": sum(1 for r in mres if r["status"] == "detected"),
